@@ -459,12 +459,22 @@ fn gen_matrix(rng: &mut Rng, tier: &str) -> (String, Vec<[f32; 5]>) {
     if kind != "counts" {
         let w = rng.below(20);
         for r in rows.iter_mut() {
+            let rmin = r[..4].iter().cloned().fold(f32::INFINITY, f32::min);
+            let rmax = r[..4].iter().cloned().fold(f32::NEG_INFINITY, f32::max);
+            // spread of the row (of the matrix scale when the row is constant)
+            let spread = if rmax > rmin && (rmax - rmin).is_finite() { rmax - rmin } else { 1.0 };
             r[4] = match w {
-                0..=9 => f32::NEG_INFINITY,
-                10..=12 => 0.0,
-                13..=15 => r[..4].iter().cloned().fold(f32::INFINITY, f32::min),
+                0..=8 => f32::NEG_INFINITY,
+                9..=10 => 0.0,
+                11 => rmin,
+                // finite and BELOW the row minimum: the real score of a window with N is below
+                // min_score(), its byte image must saturate to 0
+                12..=13 => rmin - spread * (*rng.pick(&[0.01f32, 0.3, 1.0, 4.0])),
+                // finite and ABOVE the row minimum (inside the row's range): the wildcard cell
+                // of the discrete matrix must be rounded up like every other cell
+                14..=15 => rmin + spread * (*rng.pick(&[0.01f32, 0.25, 0.5, 0.99])),
                 16 => rand_f32(rng, -30.0, 30.0),
-                17 => r[..4].iter().cloned().fold(f32::NEG_INFINITY, f32::max) + 1.0,
+                17 => rmax + 1.0,
                 18 => *rng.pick(&[f32::INFINITY, f32::NAN, f32::NEG_INFINITY]),
                 _ => rand_f32(rng, -3.0, 3.0),
             };
@@ -576,6 +586,23 @@ fn conditioning(rows: &[[f32; 5]]) -> &'static str {
     }
 }
 
+/// the next f32 above / below (NaN and the infinity on that side are left alone)
+fn next_up(x: f32) -> f32 {
+    if x.is_nan() || x == f32::INFINITY {
+        x
+    } else if x == 0.0 {
+        f32::from_bits(1)
+    } else if x > 0.0 {
+        f32::from_bits(x.to_bits() + 1)
+    } else {
+        f32::from_bits(x.to_bits() - 1)
+    }
+}
+
+fn next_down(x: f32) -> f32 {
+    -next_up(-x)
+}
+
 fn case_line(rng: &mut Rng, id: &str, kind: &str, rows: &[[f32; 5]], seq: &str) -> String {
     let m = rows.len();
     // thresholds: specials, below the minimum, above the maximum, attainable scores, random in range
@@ -609,6 +636,41 @@ fn case_line(rng: &mut Rng, id: &str, kind: &str, rows: &[[f32; 5]], seq: &str) 
     for _ in 0..4 {
         let t = lo as f64 + (hi as f64 - lo as f64) * (rand_unit(rng) * 1.2 - 0.1);
         thr.push(t as f32);
+    }
+    // below the minimum by fractions / multiples of the score range, at and above the maximum
+    let range = if hi > lo && (hi - lo).is_finite() { hi - lo } else { 1.0 };
+    for k in [0.002f32, 0.01, 0.5, 1.0, 1.5] {
+        thr.push(lo - range * k);
+    }
+    thr.push(hi + range * 0.01);
+    thr.push(next_down(lo));
+    thr.push(next_up(hi));
+    // real scores of windows of the sequence itself (what ScoringMatrix::score_position adds up,
+    // windows with the wildcard included), and their two neighbours
+    let sq: Vec<usize> = if seq == "-" { vec![] } else { seq.chars().map(|c| SYMS.iter().position(|&x| x == c).unwrap_or(4)).collect() };
+    if m > 0 && sq.len() >= m {
+        let npos = sq.len() - m + 1;
+        let mut picks: Vec<usize> = vec![];
+        // windows containing the wildcard first
+        for p in 0..npos {
+            if picks.len() < 2 && sq[p..p + m].contains(&4) {
+                picks.push(p);
+            }
+        }
+        for _ in 0..3 {
+            picks.push(rng.below(npos as u64) as usize);
+        }
+        for p in picks {
+            let mut s = 0f32;
+            for (j, r) in rows.iter().enumerate() {
+                s += r[sq[p + j]];
+            }
+            thr.push(s);
+            if s.is_finite() {
+                thr.push(next_up(s));
+                thr.push(next_down(s));
+            }
+        }
     }
     thr.push(finite_bits(rng));
     let mut bytes: Vec<u8> = vec![0, 1, 127, 254, 255];
@@ -692,6 +754,12 @@ fn corpus_cases() -> Vec<String> {
     }
     let cons: String = std::iter::repeat('C').take(40).collect();
     out.push(case_line(&mut rng, "flat40", "flat", &flat, &format!("{}A{}", cons, cons)));
+    // finite wildcard column below the row minimum (windows with N score below min_score():
+    // their byte image must saturate to 0) and above it (the N cell must be rounded up)
+    let wb = vec![[2.0f32, -3.0, -3.0, -3.0, -5.0], [-3.0, 2.0, -3.0, -3.0, -5.0], [-3.0, -3.0, -3.0, 2.0, -4.0], [-3.0, -3.0, 2.0, -3.0, -3.5]];
+    out.push(case_line(&mut rng, "wild-below-min", "finite", &wb, "ACGTTTACNTGGACGNNCGTNNNNACGT"));
+    let wa = vec![[2.0f32, -3.0, -3.0, -3.0, 0.0], [-3.0, 2.0, -3.0, -3.0, 0.0], [-3.0, -3.0, -3.0, 2.0, 0.0], [-3.0, -3.0, 2.0, -3.0, 0.0]];
+    out.push(case_line(&mut rng, "wild-above-min", "finite", &wa, "ACGTTTACNTGGACGNNCGTNNNNACGTANGTACNT"));
     // sequence shorter than the motif, sequence of exactly the motif length
     out.push(case_line(&mut rng, "short", "counts", &rows, "GTTGACCTTATCAA"));
     out.push(case_line(&mut rng, "exact", "counts", &rows, "GTTGACCTTATCAAC"));
